@@ -1,11 +1,146 @@
-import PyresampleModel.Model.Core
+import PyresampleModel.Model.Grid
 
 /-
-  C09 — model (stub: not built yet).
+  C09 — gradient search (`_gradient_search.pyx: one_step_gradient_search_no_gil`, `indices_xy`, `nn`, `bil`)
+  and the block interpolators of `gradient/__init__.py`.
 -/
 namespace PyresampleModel.C09
 
+/-- source coordinates and their gradients as functions of (line, pixel) -/
+structure Fields where
+  sx : Int → Int → Rat
+  sy : Int → Int → Rat
+  xl : Int → Int → Rat
+  xp : Int → Int → Rat
+  yl : Int → Int → Rat
+  yp : Int → Int → Rat
+
+def absQ (q : Rat) : Rat := if 0 ≤ q then q else -q
+def clampI (v lo hi : Int) : Int := if v < lo then lo else if hi < v then hi else v
+
+/-- result of the search for one target pixel -/
+structure Found where
+  l0 : Int
+  p0 : Int
+  dl : Rat
+  dp : Rat
+deriving Repr, DecidableEq
+
+/-- the `while True` loop; `fuel` = remaining iterations (`cnt` runs 1..5). Returns what `fun` is called
+with (if it is called) and the (l0, p0) carried over to the next target pixel. `last` = (last_l0, last_p0). -/
+def searchLoop (f : Fields) (lmax pmax : Int) (X Y : Rat) :
+    Nat → (Int × Int) → (Int × Int) → Option Found × (Int × Int) × (Int × Int)
+  | 0, _, last => (none, last, last)                  -- cnt > 5: p0 = last_p0, l0 = last_l0, break
+  | fuel + 1, (l0, p0), last =>
+    if 0 ≤ l0 ∧ l0 ≤ lmax ∧ 0 ≤ p0 ∧ p0 ≤ pmax then
+      let dx := X - f.sx l0 p0
+      let dy := Y - f.sy l0 p0
+      let d := f.yl l0 p0 * f.xp l0 p0 - f.yp l0 p0 * f.xl l0 p0
+      if d = 0 then searchLoop f lmax pmax X Y fuel (l0, p0) last
+      else
+        let dl := (f.xp l0 p0 * dy - f.yp l0 p0 * dx) / d
+        let dp := (f.yl l0 p0 * dx - f.xl l0 p0 * dy) / d
+        if absQ dp < 1 ∧ absQ dl < 1 then
+          let emit := 0 ≤ dl + l0 ∧ dl + l0 ≤ lmax ∧ 0 ≤ dp + p0 ∧ dp + p0 ≤ pmax
+          (if emit then some ⟨l0, p0, dl, dp⟩ else none, (l0, p0), (l0, p0))
+        else
+          searchLoop f lmax pmax X Y fuel (pyTrunc ((l0 : Rat) + dl), pyTrunc ((p0 : Rat) + dp)) last
+    else
+      searchLoop f lmax pmax X Y fuel (clampI l0 0 lmax, clampI p0 0 pmax) last
+
+/-- `indices_xy`: (x index, y index) = (dp + p0, dl + l0) -/
+def indicesXY (r : Found) : Rat × Rat := (r.dp + r.p0, r.dl + r.l0)
+
+/-- `nn`: the pixel whose value is taken -/
+def nnPixel (r : Found) (lmax pmax : Int) : Int × Int :=
+  let l := if r.dl < -(1/2) ∧ r.l0 > 0 then r.l0 - 1 else if r.dl > 1/2 ∧ r.l0 < lmax then r.l0 + 1 else r.l0
+  let p := if r.dp < -(1/2) ∧ r.p0 > 0 then r.p0 - 1 else if r.dp > 1/2 ∧ r.p0 < pmax then r.p0 + 1 else r.p0
+  (l, p)
+
+/-- `bil`: the four corner pixels and the two weights (l_a, l_b, w_l, p_a, p_b, w_p) -/
+def bilParams (r : Found) (lmax pmax : Int) : Int × Int × Rat × Int × Int × Rat :=
+  let (la, lb, wl) := if r.dl < 0 then ((if 0 ≤ r.l0 - 1 then r.l0 - 1 else 0), r.l0, 1 + r.dl)
+                      else (r.l0, (if r.l0 + 1 ≤ lmax then r.l0 + 1 else lmax), r.dl)
+  let (pa, pb, wp) := if r.dp < 0 then ((if 0 ≤ r.p0 - 1 then r.p0 - 1 else 0), r.p0, 1 + r.dp)
+                      else (r.p0, (if r.p0 + 1 ≤ pmax then r.p0 + 1 else pmax), r.dp)
+  (la, lb, wl, pa, pb, wp)
+
+def bilValue (data : Int → Int → Rat) (b : Int × Int × Rat × Int × Int × Rat) : Rat :=
+  let (la, lb, wl, pa, pb, wp) := b
+  (1 - wl) * (1 - wp) * data la pa + (1 - wl) * wp * data la pb + wl * (1 - wp) * data lb pa + wl * wp * data lb pb
+
+/-- an area source in its own CRS: `src_x[l, p] = x0 + p·dx`, `src_y[l, p] = y0 - l·dy`; `np.gradient` of an
+affine field is exact: xp = dx, xl = 0, yl = -dy, yp = 0 -/
+def affine (x0 y0 dx dy : Rat) : Fields :=
+  { sx := fun _ p => x0 + p * dx, sy := fun l _ => y0 - l * dy,
+    xl := fun _ _ => 0, xp := fun _ _ => dx, yl := fun _ _ => -dy, yp := fun _ _ => 0 }
+
+/-- `block_nn_interpolator` on one (block-local) index: `clip(rint(i), 0, n - 1)` -/
+def blockNN (i : Rat) (n : Nat) : Int := clampI (roundHalfEven i) 0 ((n : Int) - 1)
+
+/-- `block_bilinear_interpolator` on one axis: clip, `modf`, end index: (start, end, weight) -/
+def blockBil (i : Rat) (n : Nat) : Int × Int × Rat :=
+  let c : Rat := if i < 0 then 0 else if i > (n : Rat) - 1 then (n : Rat) - 1 else i
+  let st := pyTrunc c
+  (st, clampI (st + 1) 1 ((n : Int) - 1), c - st)
+
+/-! ### driver -/
+open Wire
+
+def grid2? (rows cols : Nat) (toks : List String) : Option (List (List Rat) × List String) := do
+  if toks.length < rows * cols then none else
+  let vals ← (toks.take (rows * cols)).mapM rat?
+  let rec chunk : Nat → List Rat → List (List Rat)
+    | 0, _ => []
+    | r + 1, vs => vs.take cols :: chunk r (vs.drop cols)
+  some (chunk rows vals, toks.drop (rows * cols))
+
+def at2 (a : List (List Rat)) (l p : Int) : Rat := ((a.getD l.toNat []).getD p.toNat 0)
+
 def handle : List String → Option String
+  | "search" :: rows :: cols :: rest => do
+    -- search <rows> <cols> sx sy xl xp yl yp (each rows*cols) <trows> <tcols> dstx dsty (each trows*tcols; "inf" allowed)
+    let rows ← nat? rows; let cols ← nat? cols
+    let (sx, t) ← grid2? rows cols rest
+    let (sy, t) ← grid2? rows cols t
+    let (xl, t) ← grid2? rows cols t
+    let (xp, t) ← grid2? rows cols t
+    let (yl, t) ← grid2? rows cols t
+    let (yp, t) ← grid2? rows cols t
+    match t with
+    | tr :: tc :: t2 =>
+      let tr ← nat? tr; let tc ← nat? tc
+      if t2.length ≠ 2 * tr * tc then none else
+      let optR := fun (s : String) => if s = "inf" then some none else (rat? s).map some
+      let dx ← (t2.take (tr * tc)).mapM optR
+      let dy ← (t2.drop (tr * tc)).mapM optR
+      let f : Fields := { sx := at2 sx, sy := at2 sy, xl := at2 xl, xp := at2 xp, yl := at2 yl, yp := at2 yp }
+      let lmax : Int := (rows : Int) - 1
+      let pmax : Int := (cols : Int) - 1
+      -- zig-zag scan
+      let init : (Int × Int) × (Int × Int) × List (Nat × String) := ((lmax / 2, pmax / 2), (lmax / 2, pmax / 2), [])
+      let res := (List.range tr).foldl (fun acc i =>
+        let js := if i % 2 = 0 then List.range tc else (List.range tc).reverse
+        js.foldl (fun (acc : (Int × Int) × (Int × Int) × List (Nat × String)) j =>
+          let (cur, last, out) := acc
+          match dx.getD (i * tc + j) none, dy.getD (i * tc + j) none with
+          | some X, some Y =>
+            let (r, cur', last') := searchLoop f lmax pmax X Y 5 cur last
+            let s := match r with
+              | none => "nan"
+              | some v => showRat (indicesXY v).1 ++ "," ++ showRat (indicesXY v).2
+            (cur', last', (i * tc + j, s) :: out)
+          | _, _ => (cur, last, (i * tc + j, "nan") :: out)) acc) init
+      let sorted := (List.range (tr * tc)).map (fun k => ((res.2.2.find? (fun p => p.1 == k)).map (·.2)).getD "nan")
+      some (" ".intercalate sorted)
+    | _ => none
+  | ["blocknn", i, n] => do
+    let i ← rat? i; let n ← nat? n
+    some (toString (blockNN i n))
+  | ["blockbil", i, n] => do
+    let i ← rat? i; let n ← nat? n
+    let r := blockBil i n
+    some s!"{r.1} {r.2.1} {showRat r.2.2}"
   | _ => none
 
 end PyresampleModel.C09
